@@ -224,6 +224,7 @@ def replay(ctx, path):
     with C.Lock():
         C.translate_all(ctx)
         C.build_harness(ctx, bins=("impl",))
-    a, b = C.run_impl(ctx, [req])[0], C.run_driver(ctx, [req])[0]
+    hist = (r.get("witness") or {}).get("history") or []     # requests answered before it by the same process
+    a, b = C.run_impl(ctx, hist + [req])[-1], C.run_driver(ctx, hist + [req])[-1]
     print("request:", req[:300]); print("implementation:", a[:400]); print("model:", b[:400])
     return 1 if C.canon(a) != C.canon(b) or " | differ" in a else 0
